@@ -18,13 +18,13 @@ from .. import REPO, VERIF
 ID = "C18"
 LEVEL = "exploration"
 RULE = ("fresh interpreter per PYTHONHASHSEED in 0..31 (quick) / 0..95 (thorough); inside each, the "
-        "11-item battery (escaping of quotes/newlines/metacharacters, same dependency name with two "
+        "14-item battery (escaping of quotes/newlines/metacharacters, same dependency name with two "
         "spellings of one version in separate documents, a second text document + css()/number conversions of "
         "equal-but-different values, documents with 7+ dependency names, "
         "duplicate head_content, HTMLTextDocument extraction of 5 serialisations with repeats, JSX "
-        "component, attribute merges, resolution + serialisation), started with item (seed mod 11) as "
+        "component, attribute merges, resolution + serialisation), started with item (seed mod 14) as "
         "the very first library action of the process, then rendered in every permutation of its first 5 (quick: 120) / 7 (thorough: "
-        "5040) items; all ordered pairs of 17 head_content payloads. Non-trivial = (seed, order) "
+        "5040) items; all ordered pairs of 21 head_content payloads. Non-trivial = (seed, order) "
         "pairs other than the first. 2^32 seeds cannot be enumerated: the seed range is the bound.")
 ASSUMPTIONS = [
     "a set- or hash()-based regression differs between two seeds with overwhelming probability; the "
@@ -94,7 +94,7 @@ def make_run(tier):
                            "impl_executions": nexec, "violations": len(viols),
                            "wall_s": round(time.time() - t, 2),
                            "bound": f"PYTHONHASHSEED in {seeds[0]}..{seeds[-1]}, {nperms} orders each, "
-                                    f"289 ordered head_content payload pairs per process"})
+                                    f"441 ordered head_content payload pairs per process"})
         ctx.log(f"stratum seeds-x-orders: {len(seeds)} interpreters x {nperms} orders, "
                 f"{nexec} battery executions, distinct digest sets={len(digests_seen)}, violations={len(viols)}")
     return run
